@@ -49,7 +49,7 @@ claim("C11", "exploration",
       "Open known findings for --symbolic-links combined with --isolate / cross-device move. `dedupe` not compared (reflink unsupported here). atime-based priorities replaced (reads between runs change atimes).",
       "proptest generation; differential oracle: dry-run script vs real run vs bash execution of the script", "DESIGN.md 4 C11")
 claim("C18", "exploration",
-      "Generated scenarios x `move DIR` with DIR outside/inside the scanned tree, on tmpfs->ext4 (EXDEV copy fallback) and on a loop-mounted ext4 that fclones sees as another mount (copy path), absolute or relative, with obstacles planted from a dry run (colliding file, directory at destination, file at parent, dangling symlink); in a third of the cases the k-th mutating libc call (k=1..24) fails with EIO/ENOSPC/EPERM through the LD_PRELOAD interposer. Inventory oracle: pre-existing entries under DIR untouched, vanished sources complete at DIR/<abs path> which did not exist before, injective count, unmoved sources untouched with a warning.",
+      "Generated scenarios x `move DIR` with DIR outside/inside the scanned tree, on tmpfs->ext4 (EXDEV copy fallback) and on a loop-mounted ext4 that fclones sees as another mount (copy path), absolute or relative, with obstacles planted from a dry run (colliding file, directory at destination, file at parent, dangling symlink); in a third of the cases the k-th mutating libc call (k=1..24) fails with EIO/ENOSPC/EPERM/EINVAL through the LD_PRELOAD interposer. Inventory oracle: pre-existing entries under DIR untouched, vanished sources complete at DIR/<abs path> which did not exist before, injective count, unmoved sources untouched with a warning.",
       "One injected failure per run at a generated position (C05 enumerates every position); after an injected failure an incomplete copy may remain under DIR. Loop mount needs root; absent => those cases fall back to the plain ext4 target.",
       "proptest generation; oracle = invariants over before/after inventories", "DESIGN.md 4 C18")
 claim("C20", "exploration",
